@@ -64,6 +64,12 @@ CHECKS.update({
    note="histories whose outcome depends on the exact tick of the chord deadline / idle-reactivate time / 10000-tick reset (within 3 ms) and holds mixing a follow-up with a later top-level activation are counted but not judged; dead-key mappings (no-erase, single-output) are outside the text model; six genuine defects found by this check were repaired (known_findings.json, fixed)."),
 })
 
+CHECKS.update({
+ "C12": dict(cat="exploration", ref="D5 C12", tech="deterministic simulation of sequence mode at the timeout boundary (seeded defseq table x typing schedule search) with an independently recomputed prefix-freeness oracle and per-segment expectations; real sequence state compared after every event",
+   text="Static: for every accepted defseq table the expansions (all permutations of O-groups) are recomputed from the generated structure and no expansion may be a prefix of another sequence's. Dynamic: leader + a defined sequence typed in a permitted order with press-to-press gaps < T fires its virtual key exactly once and leaves sequence mode; a proper prefix followed by a key that is in no sequence, or a gap >= T (T-1/T/T+1 sampled), ends the mode without any virtual key; the three input modes' output rules (hidden modes press nothing while active, hidden-delay-type flushes taps on failure, visible-backspaced one backspace per typed character on completion) are checked on the OS output.",
+   note="two genuine defect classes are known findings: the parser accepts tables in which an O-group's first key equals another sequence typed plainly, and the matcher follows two hypotheses at most (sequences sharing a differently-encoded typed prefix); a third (O-group followed by further items could not complete) was repaired. sequence-always-on is only combined with the modes in which it is usable (not hidden-suppressed)."),
+})
+
 NA = {
  "C11": "pure function of a 16-bit code / key name / config (discriminant tables, a transmute, set construction): no schedule, clock, fault or interleaving for a simulator to vary (DESIGN.md D7)",
 }
